@@ -1088,8 +1088,10 @@ def masked_iterate_final() -> Callable[[GenerativeFunction[Y]], GenerativeFuncti
         def pre(state, flag: Flag):
             return flag, state
 
-        def post(_unused_args, _xformed, masked_retval: Mask[Y]):
-            return masked_retval.value, None
+        def post(args, _xformed, masked_retval: Mask[Y]):
+            # A masked-off step returns the original input, as documented.
+            state, _flag = args
+            return masked_retval.unmask(default=state), None
 
         # scan_step: (a, bool) -> a
         scan_step = step.mask().dimap(pre=pre, post=post)
